@@ -72,15 +72,15 @@ def op_evaluate_node(root, n, cp):
 
 
 def op_to_json(root, n, cp):
-    return metapype_io.to_json(root)
+    return metapype_io.to_json(root), metapype_io.to_json(n), metapype_io.to_json(n, indent=None)
 
 
 def op_to_json_indent(root, n, cp):
-    return metapype_io.to_json(n, 2)
+    return metapype_io.to_json(n, 2), metapype_io.to_json(root, indent=4)
 
 
 def op_to_xml(root, n, cp):
-    return metapype_io.to_xml(root)
+    return metapype_io.to_xml(root), metapype_io.to_xml(n), metapype_io.to_xml(n, n.parent, 2)
 
 
 def op_to_xml_skip_ns(root, n, cp):
@@ -88,7 +88,7 @@ def op_to_xml_skip_ns(root, n, cp):
 
 
 def op_export_to_xml(root, n, cp):
-    return export.to_xml(root)
+    return export.to_xml(root), export.to_xml(n)
 
 
 def op_export_to_xml_node(root, n, cp):
@@ -96,11 +96,11 @@ def op_export_to_xml_node(root, n, cp):
 
 
 def op_graph(root, n, cp):
-    return metapype_io.graph(root)
+    return metapype_io.graph(root), metapype_io.graph(n)
 
 
 def op_legacy_to_json(root, n, cp):
-    return mp_io.to_json(root)
+    return mp_io.to_json(root), mp_io.to_json(n)
 
 
 def op_legacy_objectify(root, n, cp):
@@ -238,7 +238,7 @@ def cases(draw):
     parts = [valid, treegen.mutated(valid, 1, 3).map(lambda t: t[0]), treegen.arb_spec(14)]
     if fx:
         parts.append(st.sampled_from(fx))
-    sp = draw(parts[pre.int(0, len(parts) - 1)])
+    sp = treegen._copy(draw(parts[pre.int(0, len(parts) - 1)]))     # own copy: fixture specs are shared objects
     if pre.bool():
         # make sure the classes an in-place "clean-up" would touch are present: markup characters, entities,
         # non-breaking / doubled / padding whitespace - on any node, and preferably on nodes with typed content and on titles
@@ -248,6 +248,13 @@ def cases(draw):
         pool = special if special and pre.bool() else allp
         for _ in range(pre.int(1, 3)):
             pre.pick(pool)["c"] = pre.pick(_MARKUP)
+    if pre.chance(3):
+        # a subtree that lacks a prefix its ancestors declare (remove_namespace on the finished subtree)
+        inner = [s for p_, s in treegen.spec_nodes(sp) if p_]
+        if inner:
+            pf = pre.pick(["p", "q", "eml"])
+            sp.setdefault("ns", {})[pf] = "urn:1"
+            pre.pick(inner).setdefault("rns", []).append(pf)
     return sp, ops, pre_state
 
 
